@@ -714,6 +714,8 @@ func init() {
 			c.StoreCommit("C11", s)
 			c.WhoWrites("C11")
 			c.BadgerBufferDiscipline("C11")
+			c.DecodeFreshTarget("C11")
+			c.ImportRules("C10") // the round trip ends in the import command
 		},
 		Explanation: "Writer/reader agreement decided structurally: for both record types the encoder and decoder have inverse layouts (version byte, length, offsets, widths, byte order, field order, every field present); the non-binary arm gob-decodes into the receiver and the legacy field names still exist; the export has an arm for every action byte used by the record keys, fails on unknown bytes, copies each value from the state field of the same meaning and starts from -1; the command-level export and import tables are inverse with the EIP-3076 names and omit/skip exactly -1; restart retention = synchronous committed writes (C03 group). See DESIGN.md §5 C11.",
 		Trusted:     append([]string{"gob wire compatibility across Go releases", "decisions of a re-imported instance equal the original's because the watermark triple is equal and the rules are a function of it (C01/C02); not checked by running both"}, commonTrusted...),
